@@ -111,6 +111,18 @@ func (h *chunkHeartbeat) Marshal() ([]byte, error) {
 	return h.chunkHeader.marshal()
 }
 
+// marshal makes chunkHeartbeat satisfy the chunk interface with its own encoder.
+// Without it the promoted chunkHeader.marshal is used when a packet is
+// serialized, which emits a HEARTBEAT without its Heartbeat Info parameter.
+func (h *chunkHeartbeat) marshal() ([]byte, error) {
+	if len(h.params) == 0 {
+		// nothing to encode beyond the header (unchanged behaviour)
+		return h.chunkHeader.marshal()
+	}
+
+	return h.Marshal()
+}
+
 func (h *chunkHeartbeat) check() (abort bool, err error) {
 	return false, nil
 }
